@@ -13,6 +13,55 @@ S = "aw_transform/sort_by.py"
 FK = "aw_transform/filter_keyvals.py"
 
 
+LOSSY = {"set": "forgets order and multiplicity", "frozenset": "forgets order and multiplicity", "sorted": "forgets order", "str": "1 and '1' coincide", "repr": "objects of different type can print alike", "len": "keeps only the length", "bool": "keeps only truthiness", "hash": "collides", "type": "keeps only the type", "id": "identity, not value"}
+
+
+def _value_injective(prog, rep, fi, il, kv, exts):
+    """the value part of a component is the data value itself, or a tuple of it (lists are unhashable): anything that maps
+    two different values to one (a set, a sorted copy, str()) merges groups the property keeps apart"""
+    from ..sqlmodel import local_defs
+
+    def is_data_value(e):
+        t = norm(e)
+        return t.endswith(f".data[{kv}]") or t.endswith(f"['data'][{kv}]") or t.endswith(f".data.get({kv})")
+
+    def lossy_in(e, depth=0):
+        for c in [e] + [x for x in ast.walk(e) if x is not e]:
+            if isinstance(c, ast.Call):
+                fn = norm(c.func)
+                if fn in LOSSY:
+                    return c, LOSSY[fn]
+                if depth < 3:
+                    for callee in prog.resolve_call(c, fi):
+                        if callee is fi:
+                            continue
+                        for st in [y for h in ast.walk(callee.node) if isinstance(h, (ast.Return, ast.Assign)) and h.value is not None for y in ast.walk(h.value)]:
+                            if isinstance(st, ast.Call) and norm(st.func) in LOSSY:
+                                return c, f"{callee.short} applies {norm(st.func)}(): {LOSSY[norm(st.func)]}"
+        return None
+
+    comps = []
+    for e in exts:
+        tup = e.value.right if isinstance(e, ast.Assign) else e.value
+        comp = tup.elts[0]
+        vals = [x for x in comp.elts if not (isinstance(x, ast.Name) and x.id == kv)] if isinstance(comp, ast.Tuple) else [comp]
+        comps += vals
+    seen, todo = set(), list(comps)
+    bad = None
+    while todo and bad is None:
+        x = todo.pop()
+        hit = lossy_in(x)
+        if hit:
+            bad = hit
+            break
+        for nm in [n for n in ast.walk(x) if isinstance(n, ast.Name) and isinstance(n.ctx, ast.Load) and n.id not in seen and n.id not in fi.params and n.id != kv]:
+            seen.add(nm.id)
+            for d in local_defs(fi, nm.id):
+                if any(d is y for y in ast.walk(il)) and getattr(d, "value", None) is not None:
+                    todo.append(d.value)
+    rep.check(bad is None, "KEY", fi.short, "value part of a component", "the data value itself (or a tuple of it)", (f"the value that enters the group key goes through `{norm(bad[0])[:60]}` ({bad[1]}): two different values of the key -- e.g. the lists ['a', 'b'] and ['b', 'a'], or ['a'] and ['a', 'a'] -- get the same component, so events with different values are merged into one group" if bad else ""), fi.loc(bad[0]) if bad else fi.loc(il))
+
+
 def key_injectivity(prog, rep):
     rep.rule("KEY", "merge_events_by_keys: the composite group key determines, for every key, whether it is present and its value: either every path through the `for key in keys` body extends the key by exactly one component (positional), or each component carries the key itself next to the value (tagged)")
     fi = prog.func("merge_events_by_keys")
@@ -52,6 +101,7 @@ def key_injectivity(prog, rep):
             return ol
         tagged = isinstance(comp, ast.Tuple) and any(isinstance(x, ast.Name) and x.id == kv for x in comp.elts) and len(comp.elts) >= 2
         tagged_all = tagged_all and tagged
+    _value_injective(prog, rep, fi, il, kv, exts)
     if tagged_all:
         rep.ok("KEY", fi.short, "key extension", f"tagged: each component carries `{kv}` next to the value", fi.loc(exts[0]))
         return ol
@@ -148,6 +198,35 @@ def chunk_rule(prog, rep):
     key = fi.params[1]
     okt = f"{acc}[-1].data[{key}] == {ev}.data[{key}]" in t or f"{ev}.data[{key}] == {acc}[-1].data[{key}]" in t
     rep.check(okt, "SUM", fi.short, "run test", "same value of the key as the last chunk", f"runs are not delimited by the key's value (`{t[:100]}`)", fi.loc(i))
+    # what else the run test may depend on: the event, the input list (the documented gap against the END OF THE INPUT) and
+    # the parameters -- not the chunks built so far, and nothing carried over from earlier iterations
+    from ..sqlmodel import local_defs
+
+    conj = i.test.values if isinstance(i.test, ast.BoolOp) and isinstance(i.test.op, ast.And) else [i.test]
+    allowed = set(fi.params) | {ev}
+    bad = None
+    for cj in conj:
+        tc = norm(cj)
+        if tc in (f"len({acc}) > 0", acc, f"len({acc}) != 0", f"len({acc}) >= 1", f"{acc} != []") or f"{acc}[-1].data[{key}]" in tc:
+            continue
+        seen, todo = set(), [cj]
+        while todo and bad is None:
+            x = todo.pop()
+            for nm in [n for n in ast.walk(x) if isinstance(n, ast.Name) and isinstance(n.ctx, ast.Load)]:
+                if nm.id == acc:
+                    bad = (cj, f"it depends on the chunks built so far (`{acc}`)")
+                    break
+                if nm.id in allowed or nm.id in seen:
+                    continue
+                seen.add(nm.id)
+                for d in local_defs(fi, nm.id):
+                    v = getattr(d, "value", None)
+                    inloop = any(d is y for y in ast.walk(lp))
+                    if inloop and d.lineno > i.lineno:
+                        bad = (cj, f"`{nm.id}` is carried over from the previous iteration (`{norm(d)[:50]}`)")
+                    elif v is not None:
+                        todo.append(v)
+    rep.check(bad is None, "SUM", fi.short, "run test: nothing but the key's value and the documented end-of-input gap", "other conjuncts depend on the event, the input list and the parameters only", (f"the run test has a conjunct `{norm(bad[0])[:80]}`; {bad[1]}: equal-valued neighbours are split into separate chunks by something other than the key's value (e.g. the gap to the chunk's end), so the chunks are no longer the runs that share the key's value" if bad else ""), fi.loc(i))
 
 
 def small_functions(prog, rep):
@@ -269,6 +348,8 @@ def check(prog, rep):
 
 
 VARIANTS = [
+    ("B list values enter the group key as frozensets", "aw_transform/merge_events_by_keys.py", "                    val = tuple(val)", "                    val = frozenset(val)", "KEY"),
+    ("B chunk gap measured against the end of the chunk built so far", "aw_transform/chunk_events_by_key.py", "timediff = event.timestamp - (events[-1].timestamp + events[-1].duration)", "timediff = event.timestamp - (chunked_events[-1].timestamp + chunked_events[-1].duration)", "SUM"),
     ("B untagged conditional key component (the original defect)", M, "composite_key = composite_key + ((key, val),)", "composite_key = composite_key + (val,)", "KEY"),
     ("B group duration not accumulated", M, "            merged_events[composite_key].duration += event.duration\n", "            pass\n", "SUM"),
     ("B group starts with zero duration", M, "timestamp=event.timestamp, duration=event.duration, data={}", "timestamp=event.timestamp, duration=0, data={}", "SUM"),
